@@ -113,4 +113,18 @@ theorem C07_driver_fast_versions (m : Nat) (bs : Bytes) :
     readLinesF m bs = readLines m bs ∧ clientMsgsF bs = (clientFeed ⟨[], []⟩ bs).msgs :=
   ⟨readLinesF_eq m bs, clientMsgsF_eq bs⟩
 
+/-- the driver's linear-time multi-connection client (used by the scripted chunk schedules of
+    the differential run, where messages exceed 64 KiB) prints exactly the model's messages, in
+    the model's order, for every schedule over `n` connections -/
+theorem C07_driver_fast_multi (n : Nat) (sched : List (Nat × Bytes)) (h : ∀ c ∈ sched, c.1 < n) :
+    multiRunF n sched = (multiRun sched).out := multiRunF_eq n sched h
+
+/-- hence what the driver prints for connection `i` is what a single client fed with `i`'s
+    stream alone prints (the specification value the differential run compares with) -/
+theorem C07_driver_per_connection (n : Nat) (sched : List (Nat × Bytes)) (h : ∀ c ∈ sched, c.1 < n) (i : Nat) :
+    ((multiRunF n sched).filter (·.1 = i)).map (·.2) = clientMsgsF (streamOf i sched) := by
+  rw [multiRunF_eq n sched h, clientMsgsF_eq]
+  have := C07_interleave sched i
+  simpa [projConn] using congrArg CS.msgs this
+
 end Dtail.C07
